@@ -1,4 +1,6 @@
 import asyncio
+import builtins
+import codecs
 import enum
 import io
 import json
@@ -750,6 +752,24 @@ class TextIOPayload(IOBasePayload):
             *args,
             **kwargs,
         )
+
+    @property
+    def size(self) -> int | None:
+        """
+        Size of the payload in bytes.
+
+        The text is encoded again when it is written, so the size of the file is
+        the size of the payload only if the file is read with the same encoding.
+
+        Returns None otherwise, or if the size cannot be determined.
+        """
+        try:
+            file_codec = codecs.lookup(getattr(self._value, "encoding", None))
+            if file_codec.name != codecs.lookup(self._encoding or "utf-8").name:
+                return None
+        except (TypeError, builtins.LookupError):
+            return None
+        return super().size
 
     def _read_and_available_len(
         self, remaining_content_len: int | None
